@@ -79,6 +79,10 @@ func shape1(t types.Type, prefix string) []Leaf {
 			return []Leaf{{prefix, SInt, t, "ref"}}
 		case u.Kind() == types.UntypedNil:
 			return []Leaf{{prefix, SInt, t, "ref"}}
+		case u.Kind() == types.Invalid:
+			// the type go/ssa gives to components that are never used (blank range keys):
+			// such a value carries no data
+			return nil
 		case u.Info()&types.IsComplex != 0:
 			return []Leaf{{prefix + ".re", SInt, t, "float"}, {prefix + ".im", SInt, t, "float"}}
 		}
